@@ -68,8 +68,8 @@ func findPageHashes(b []byte, depth int) (oid string, blob []byte) {
 }
 
 type peOpts struct {
-	presign  bool // input already carries a relic signature by another key
-	ossl     bool
+	presign bool // input already carries a relic signature by another key
+	ossl    bool
 }
 
 func runPECase(c sigCase, input []byte, o peOpts) {
